@@ -130,20 +130,47 @@ def mp_scalars_from(sy, vals):
     return out
 
 
-def sym_vector(dim, system, flavor, tag):
+ASSUME = {"+": {"positive": True}, "-": {"negative": True}, "nz": {"real": True, "nonzero": True}, "r": {"real": True}}
+
+
+def _fits(value, mark):
+    return value > 0 if mark == "+" else value < 0 if mark == "-" else value != 0 if mark == "nz" else True
+
+
+def sym_vector(dim, system, flavor, tag, assume=None):
     names = L.field_names(system)
-    syms = [sympy.Symbol(f"{n}{tag}", real=True) for n in names]
+    syms = [sympy.Symbol(f"{n}{tag}", **(ASSUME[assume[i]] if assume else {"real": True})) for i, n in enumerate(names)]
     return SYMCLS[(flavor, dim)](**dict(zip(names, syms))), syms
 
 
-def run_expr(res: Result, op, sa, sb, flavor, tier, zero_index=None):
-    """zero_index = i: the i-th stored coordinate of the first operand is the exact SymPy number 0 instead of a symbol (a *structural*
+def sign_patterns(dim, sa, tier):
+    """assumption patterns for the first operand's symbols: the sign pattern of the stored coordinates of every regular point
+    (symbols declared positive=True / negative=True), plus all-nonzero"""
+    pats = []
+    for v in regular_vectors(dim, tier):
+        st = S.stored(v, sa)
+        if st is None:
+            continue
+        p = tuple("+" if x > 0 else "-" if x < 0 else "r" for x in st)
+        if p not in pats:
+            pats.append(p)
+    return pats + [tuple("nz" for _ in sa) + ("nz",) * (dim - len(sa))]
+
+
+def run_expr(res: Result, op, sa, sb, flavor, tier, zero_index=None, assume=None):
+    """assume = tuple of marks (+, -, nz, r) per stored coordinate of the first operand: its symbols carry the SymPy assumptions
+    positive / negative / nonzero and the expression is evaluated at the regular points that satisfy them (an expression
+    simplified under an assumption must still be the right one where the assumption holds).
+    zero_index = i: the i-th stored coordinate of the first operand is the exact SymPy number 0 instead of a symbol (a *structural*
     zero, as in VectorSympy2D(x=x, y=0)); the expression is then evaluated at the alphabet points whose i-th stored coordinate is 0."""
     dimA = len(sa) + 1
     dimB = len(sb) + 1 if sb is not None else None
     case = {"op": op.key, "sysA": list(sa), "sysB": list(sb) if sb else None, "flavor": flavor}
     cls = f"{op.key}|{L.sysname(sa)}" + (f"|{L.sysname(sb)}" if sb else "") + f"|{flavor}" + ("" if zero_index is None else f"|zero[{L.field_names(sa)[zero_index]}]")
-    va, syms_a = sym_vector(dimA, sa, flavor, "1")
+    va, syms_a = sym_vector(dimA, sa, flavor, "1", assume)
+    if assume is not None:
+        case["assume"] = list(assume)
+        cls += "|assume[" + ",".join(assume) + "]"
     if zero_index is not None:
         case["zero_index"] = zero_index
         names_a = L.field_names(sa)
@@ -167,6 +194,10 @@ def run_expr(res: Result, op, sa, sb, flavor, tier, zero_index=None):
     firsts = regular_vectors(dimA, tier)
     if zero_index is not None:
         firsts = [v for v in A.vectors(dimA, "thorough") if v.has("plane") and not v.has("spacelike") and S.stored(v, sa) is not None and S.stored(v, sa)[zero_index] == 0]
+        if not firsts:
+            return
+    if assume is not None:
+        firsts = [v for v in firsts if S.stored(v, sa) is not None and all(_fits(x, m) for x, m in zip(S.stored(v, sa), assume))]
         if not firsts:
             return
     if sb is None:
@@ -393,6 +424,8 @@ def run_shard(shard, tier):
             run_expr(res, op, sa, sb, flavor, tier)
         for zi in range(len(L.field_names(sa))):
             run_expr(res, op, sa, sb, fl[0], tier, zero_index=zi)
+        for pat in sign_patterns(dimA, sa, tier):
+            run_expr(res, op, sa, sb, fl[-1], tier, assume=pat)
     res.sample({"op": op.key, "dimA": dimA, "dimB": dimB, "signatures": len(sigs), "points": len(regular_vectors(dimA, tier)), "example_point": list(regular_vectors(dimA, tier)[0].comps)})
     return res
 
@@ -405,5 +438,5 @@ def replay(case):
     op = BY_KEY[case["op"]]
     sa = tuple(case["sysA"])
     sb = tuple(case["sysB"]) if case.get("sysB") else None
-    run_expr(res, op, sa, sb, case["flavor"], "thorough", zero_index=case.get("zero_index"))
+    run_expr(res, op, sa, sb, case["flavor"], "thorough", zero_index=case.get("zero_index"), assume=tuple(case["assume"]) if case.get("assume") else None)
     return res
